@@ -157,7 +157,9 @@ impl<Inner: FangProc> FangProc for CORSProc<Inner> {
             /* override default `Not Implemented` response for valid preflight */
             if res.status == Status::NotImplemented {
                 res.status = Status::OK;
-                h.ContentType(None).ContentLength(None);
+                /* keep `Content-Length: 0`: a 200 without any declared length
+                   leaves the client waiting for the connection to close */
+                h.ContentType(None);
             }
         }
 
